@@ -24,7 +24,7 @@ func newOr(astNode schema.ASTNode) *Or {
 	}
 
 	or := Or{
-		AnyOf:       newAnyOf(rule.Items),
+		AnyOf:       newAnyOf(rule.Items, astNode.Value),
 		Example:     ex,
 		Nullable:    newNullable(astNode),
 		Description: newDescription(astNode),
@@ -33,11 +33,15 @@ func newOr(astNode schema.ASTNode) *Or {
 	return &or
 }
 
-func newAnyOf(rr []schema.RuleASTNode) []Node {
+func newAnyOf(rr []schema.RuleASTNode, example string) []Node {
 	nn := make([]Node, 0, len(rr))
 
 	for _, r := range rr {
 		mock := internal.RuleToASTNode(r)
+		if mock.TokenType != schema.TokenTypeShortcut && mock.Rules.Has("const") {
+			// The constant of a rule-set is the example next to which the "or" rule is written.
+			mock.Value = example
+		}
 		node := newNode(mock)
 
 		if p, ok := node.(*Primitive); ok { // fix empty string Example. See JSight {or: [ {type: "integer"} ]}
